@@ -632,32 +632,37 @@ def gen_wild(rnd, n, hostile=False, ext=()):
 
 # letters: R retract, U recover, Pi/Po printing move to a point inside/outside the region, Ti/To travel inside/outside
 _LET = {0: ["R", "Pi", "Po", "Ti", "To"], 1: ["U", "Ti", "To"]}
+_AT = ["Off", "On"]        # with_at: a disable / enable @-command may stand anywhere
 _NEXT = {"R": 1, "U": 0}
 _COUNT = {}
 
 
-def _count(length, state):
+def _letters(state, with_at):
+    return _LET[state] + (_AT if with_at else [])
+
+
+def _count(length, state, with_at=False):
     if length == 0:
         return 1
-    key = (length, state)
+    key = (length, state, with_at)
     if key not in _COUNT:
-        _COUNT[key] = sum(_count(length - 1, _NEXT.get(l, state)) for l in _LET[state])
+        _COUNT[key] = sum(_count(length - 1, _NEXT.get(l, state), with_at) for l in _letters(state, with_at))
     return _COUNT[key]
 
 
-def exhaustive_total(maxlen):
-    return sum(_count(L, 0) for L in range(1, maxlen + 1))
+def exhaustive_total(maxlen, with_at=False):
+    return sum(_count(L, 0, with_at) for L in range(1, maxlen + 1))
 
 
-def exhaustive_sequence(index, maxlen):
+def exhaustive_sequence(index, maxlen, with_at=False):
     """The index-th valid event sequence (matched cycles by construction) of length 1..maxlen, or None when exhausted."""
     for L in range(1, maxlen + 1):
-        n = _count(L, 0)
+        n = _count(L, 0, with_at)
         if index < n:
             seq, state = [], 0
             for pos in range(L):
-                for l in _LET[state]:
-                    c = _count(L - pos - 1, _NEXT.get(l, state))
+                for l in _letters(state, with_at):
+                    c = _count(L - pos - 1, _NEXT.get(l, state), with_at)
                     if index < c:
                         seq.append(l)
                         state = _NEXT.get(l, state)
@@ -668,9 +673,9 @@ def exhaustive_sequence(index, maxlen):
     return None
 
 
-def exhaustive_case(index, maxlen, firmware, variant=0):
+def exhaustive_case(index, maxlen, firmware, variant=0, with_at=False):
     """Concrete program for the index-th event sequence around one rectangular region."""
-    seq = exhaustive_sequence(index, maxlen)
+    seq = exhaustive_sequence(index, maxlen, with_at)
     if seq is None:
         return None
     inside = [(25.0, 25.0), (24.0, 27.0), (27.5, 22.5)]
@@ -680,7 +685,9 @@ def exhaustive_case(index, maxlen, firmware, variant=0):
     ni = no = 0
     pre = None
     for l in seq:
-        if l == "R":
+        if l in ("Off", "On"):
+            steps.append(["at", "ExcludeRegion", l.lower()])
+        elif l == "R":
             if firmware:
                 steps.append(["g", "G10"])
             else:
